@@ -441,6 +441,49 @@ def gen_parity(rng, logic, engine):
                 big=None, features=["parity"], family="parity")
 
 
+def gen_uf(rng, logic, engine):
+    """QF_UF: few constants, a small pool of nested terms, many short clauses of (dis)equalities and predicates."""
+    nc = rng.randint(4, 6)
+    cs = ["a%d" % i for i in range(nc)]
+    decls = ["(declare-sort U 0)"] + ["(declare-fun %s () U)" % c for c in cs] + [
+        "(declare-fun f (U) U)", "(declare-fun g (U U) U)", "(declare-fun p (U) Bool)", "(declare-fun q (U U) Bool)"]
+    pool = list(cs)
+    for _ in range(rng.randint(10, 22)):
+        if rng.random() < 0.6:
+            pool.append("(f %s)" % rng.choice(pool))
+        else:
+            pool.append("(g %s %s)" % (rng.choice(pool), rng.choice(pool)))
+    pool = [t for t in pool if t.count("(") <= 3]
+
+    def atom():
+        x = rng.random()
+        if x < 0.7:
+            a, b = rng.sample(pool, 2)
+            return "(= %s %s)" % (a, b)
+        if x < 0.8:
+            return "(distinct %s)" % " ".join(rng.sample(pool, rng.choice([2, 3])))
+        if x < 0.92:
+            return "(p %s)" % rng.choice(pool)
+        return "(q %s %s)" % (rng.choice(pool), rng.choice(pool))
+    atoms = [atom() for _ in range(rng.randint(30, 70))]
+    body = []
+    incremental = engine == "incr" or rng.random() < 0.3
+    if engine == "itp":
+        incremental = False
+    for cnt in range(rng.randint(60, 160)):
+        lits = []
+        for _ in range(rng.choice([2, 3, 3, 3])):
+            a = rng.choice(atoms)
+            lits.append("(not %s)" % a if rng.random() < 0.5 else a)
+        body.append("(assert (or %s))" % " ".join(lits))
+        if incremental and rng.random() < 0.1 and cnt > 8:
+            body.append("(check-sat)")
+            body.append(rng.choice(["(push 1)", "(push 1)", "(pop 1)"]) if False else "(push 1)")
+    body.append("(check-sat)")
+    return dict(text="\n".join(_hdr(engine, logic, decls) + body + ["(exit)"]) + "\n", logic=logic, engine=engine,
+                big=None, features=["uf"], family="uf")
+
+
 def gen(rng, logic, engine=None, big=None, family=None):
     """big in {None,'big','many'}; family in {None,'random','sched','grid','parity'}"""
     engine = engine or rng.choice(ENGINES)
@@ -450,6 +493,8 @@ def gen(rng, logic, engine=None, big=None, family=None):
             family = "sched" if x < 0.3 else ("grid" if x < 0.6 else ("parity" if (x < 0.75 and logic == "QF_LIA") else "random"))
         elif logic in ("QF_RDL", "QF_IDL"):
             family = "sched" if x < 0.6 else "random"
+        elif logic == "QF_UF":
+            family = "uf" if x < 0.8 else "random"
         else:
             family = "random"
     if family == "sched":
@@ -458,6 +503,8 @@ def gen(rng, logic, engine=None, big=None, family=None):
         return gen_grid(rng, logic, engine)
     if family == "parity":
         return gen_parity(rng, logic, engine)
+    if family == "uf":
+        return gen_uf(rng, logic, engine)
     r = gen_random(rng, logic, engine, big)
     r["family"] = "random"
     return r
